@@ -13,6 +13,7 @@ import (
 	"golang.org/x/sys/unix"
 
 	"github.com/panjf2000/gnet/v2/internal/vsup"
+	"github.com/panjf2000/gnet/v2/pkg/pool/byteslice"
 )
 
 // ---------------------------------------------------------------------------------------------
@@ -116,6 +117,7 @@ type vconn struct {
 	midReached chan struct{} // closed by the callback of a frame in the middle of the pile (the loop then waits there)
 	tailDone   chan struct{} // closed by writer 1 once it has issued its further frames
 	midOnce    sync.Once
+	probePool  bool // look at the byte-slice pool when this callback ends
 }
 
 type vhandler struct {
@@ -625,8 +627,28 @@ func (h *vhandler) OnTraffic(c Conn) Action {
 		}
 		vc.held, vc.heldAt = nil, nil
 	}
+	if vc.probePool || vc.callbacks%8 == 0 {
+		vc.probePool = false
+		h.poolProbe(sp.id)
+	}
 	h.rec.emit("TrafficEnd", "c", sp.id, "h", vc.h, "action", int(action), "ib", c.InboundBuffered(), "ob", c.OutboundBuffered())
 	return action
+}
+
+// poolProbe: the byte-slice pool hands out memory that nobody else holds -- two slices taken one after the other
+// are two different pieces of memory, whatever was returned to the pool before (a slice put back twice comes out twice).
+func (h *vhandler) poolProbe(c int) {
+	if h.raceMode {
+		return
+	}
+	for size := 64; size <= 65536; size <<= 1 {
+		a, b := byteslice.Get(size), byteslice.Get(size)
+		if &a[:1][0] == &b[:1][0] {
+			h.rec.emit("PoolAlias", "c", c, "size", size)
+		}
+		byteslice.Put(a)
+		byteslice.Put(b)
+	}
 }
 
 func (h *vhandler) closeNow(vc *vconn, c Conn) Action {
@@ -714,6 +736,31 @@ func (h *vhandler) readOps0(vc *vconn, c Conn, emitR func(op string, req, n int,
 				return
 			}
 			continue
+		case "wrap":
+			// a reader that always leaves a fixed remainder behind: the leftover travels round the connection's ring
+			// buffer and lies across its end every few callbacks.  Look at everything (leftover + fresh bytes), look at
+			// the leftover alone again, then give up all but the remainder
+			// (two segments are left to pile up first; from then on every callback gives up as much as has just
+			// arrived, taken from the front of the leftover, so that the ring stays about half full while its read and
+			// write positions advance by one segment per callback)
+			inRing := c.(*conn).inboundBuffer.Buffered()
+			b, err := c.Peek(-1)
+			ok := vsup.Match(b, id, vc.consumed) < 0 && len(b) == avail
+			emitR("Peek", -1, len(b), ok, err)
+			for _, k2 := range []int{inRing, 200} { // the leftover alone, and a piece of it small enough for another size class
+				if k2 > 0 && k2 <= inRing {
+					b2, err := c.Peek(k2)
+					ok := vsup.Match(b2, id, vc.consumed) < 0 && (err != nil || len(b2) == k2)
+					emitR("Peek", k2, len(b2), ok, err)
+				}
+			}
+			if j := avail - inRing; inRing >= 500 && j > 0 && j <= inRing {
+				d, err := c.Discard(j)
+				vc.consumed += d
+				emitR("Discard", j, d, d == j, err)
+			}
+			vc.probePool = true
+			return
 		case "record":
 			// fixed-size records (a 2..4 byte header protocol): whole records only, the rest stays buffered, so
 			// that the next record spans the leftover and the fresh bytes (served from pooled scratch memory)
@@ -760,7 +807,25 @@ func (h *vhandler) readOps0(vc *vconn, c Conn, emitR func(op string, req, n int,
 		if vc.rng.Intn(3) == 0 && avail > 0 {
 			k = 1 + vc.rng.Intn(avail)
 		}
-		switch vc.rng.Intn(7) {
+		switch vc.rng.Intn(8) {
+		case 7: // Peek everything, Peek a part of it again (the first view is given up by that), then Discard
+			b, err := c.Peek(-1)
+			ok := vsup.Match(b, id, vc.consumed) < 0 && len(b) == avail
+			emitR("Peek", -1, len(b), ok, err)
+			if avail > 1 {
+				k2 := 1 + vc.rng.Intn(avail-1)
+				if inRing := c.(*conn).inboundBuffer.Buffered(); inRing > 0 && inRing < avail && vc.rng.Intn(2) == 0 {
+					k2 = inRing // exactly what was left over from earlier callbacks (it may lie across the ring's end)
+				}
+				b2, err := c.Peek(k2)
+				ok := vsup.Match(b2, id, vc.consumed) < 0 && (err != nil || len(b2) == k2)
+				emitR("Peek", k2, len(b2), ok, err)
+				j := 1 + vc.rng.Intn(k2)
+				d, err := c.Discard(j)
+				vc.consumed += d
+				emitR("Discard", j, d, d == j, err)
+				vc.probePool = true
+			}
 		case 0: // Read
 			p := make([]byte, k)
 			n, err := c.Read(p)
